@@ -67,12 +67,23 @@ def check(run, ctx):
     # ---- python
     pa = repo.mod(f"{PKG}.python_analyzer")
     cmd = repo.func(f"{PKG}.python_analyzer.PythonNestingAnalyzer.calculate_max_depth")
-    calls = [c for c in ast.walk(cmd.node) if is_call_named(c, "_visit_node")]
-    run.require(len(calls) == 1, "python calculate_max_depth: expected one _visit_node call")
+    # the module-level walker functions, by name or (when a private name changed) by role
+    def _has_aug(g):
+        return any(isinstance(n, ast.AugAssign) and isinstance(n.op, ast.Add) and isinstance(n.target, ast.Name) and n.target.id in {a.arg for a in g.node.args.args} for n in ast.walk(g.node))
+    def _mentions_orelse(g):
+        return any(isinstance(n, ast.Attribute) and n.attr == "orelse" for n in ast.walk(g.node))
+    vn = repo.func_by_role(f"{PKG}.python_analyzer._visit_node", "the dispatcher calculate_max_depth starts the walk with",
+                           lambda g: g.cls is None and any(is_call_named(c, g.name) for c in ast.walk(cmd.node)))
+    vcs = repo.func_by_role(f"{PKG}.python_analyzer._visit_control_structure", "adds one level for a control structure (depth parameter += 1) without looking at orelse",
+                            lambda g: g.cls is None and _has_aug(g) and not _mentions_orelse(g))
+    vif = repo.func_by_role(f"{PKG}.python_analyzer._visit_if_node", "adds one level for an if statement and handles its orelse",
+                            lambda g: g.cls is None and _has_aug(g) and _mentions_orelse(g))
+    vch = repo.func_by_role(f"{PKG}.python_analyzer._visit_children", "visits the children of a node at unchanged depth",
+                            lambda g: g.cls is None and not _has_aug(g) and any(is_call_named(c, vn.name) for c in ast.walk(g.node)) and any(isinstance(n, (ast.For, ast.comprehension)) for n in ast.walk(g.node)) and g.name != vn.name)
+    calls = [c for c in ast.walk(cmd.node) if is_call_named(c, vn.name)]
+    run.require(len(calls) == 1, f"python calculate_max_depth: expected one {vn.name} call")
     start_py = repo.fold(pa, calls[0].args[1])
-    vcs = repo.func(f"{PKG}.python_analyzer._visit_control_structure")
     inc_py, rec_after = _py_inc(vcs)
-    vif = repo.func(f"{PKG}.python_analyzer._visit_if_node")
     inc_if, rec_if = _py_inc(vif)
     rec = repo.func(f"{PKG}.python_analyzer._DepthTracker.record")
     strict_py = any(isinstance(n, ast.Compare) and isinstance(n.ops[0], ast.Gt) and "depth" in ast.unparse(n.left) for n in ast.walk(rec.node))
@@ -81,8 +92,7 @@ def check(run, ctx):
         run.ok(N1, "python increment", "current_depth += 1 then record, for control structures and for if")
     else:
         run.finding(N1, "python_analyzer._visit_control_structure", f"inc:{inc_py}/{inc_if}", "a nesting construct does not add exactly 1 before the depth is recorded", vcs.loc)
-    vch = repo.func(f"{PKG}.python_analyzer._visit_children")
-    c2 = [c for c in ast.walk(vch.node) if is_call_named(c, "_visit_node")]
+    c2 = [c for c in ast.walk(vch.node) if is_call_named(c, vn.name)]
     vch_depth = vch.node.args.args[1].arg if len(vch.node.args.args) > 1 else None   # the depth parameter, whatever it is called
     if c2 and isinstance(c2[0].args[1], ast.Name) and c2[0].args[1].id == vch_depth:
         run.ok(N1, "python non-nesting nodes", "children visited at unchanged depth")
@@ -107,6 +117,18 @@ def check(run, ctx):
                 if ast.unparse(n.orelse) == dpar and "NESTING_NODE_TYPES" in ast.unparse(n.test):
                     inc = n.body.right.value
                     child_names |= {t.id for a in ast.walk(inner) if isinstance(a, ast.Assign) and a.value is n for t in a.targets if isinstance(t, ast.Name)}
+        if inc is None:
+            # statement form: child = depth ; if <nesting node>: child = depth + k
+            for n in ast.walk(inner):
+                if isinstance(n, ast.If) and "NESTING_NODE_TYPES" in ast.unparse(n.test) and not n.orelse and len(n.body) == 1 and isinstance(n.body[0], ast.Assign):
+                    a_ = n.body[0]
+                    v_ = a_.value
+                    if isinstance(v_, ast.BinOp) and isinstance(v_.op, ast.Add) and ast.unparse(v_.left) == dpar and isinstance(v_.right, ast.Constant) and isinstance(a_.targets[0], ast.Name):
+                        nm_ = a_.targets[0].id
+                        base_defs = [b_ for b_ in ast.walk(inner) if isinstance(b_, ast.Assign) and b_ is not a_ and any(isinstance(t, ast.Name) and t.id == nm_ for t in b_.targets)]
+                        if len(base_defs) == 1 and ast.unparse(base_defs[0].value) == dpar and base_defs[0].lineno < n.lineno:
+                            inc = v_.right.value
+                            child_names.add(nm_)
         # the maximum: `if depth > m: m = depth` on a variable of the enclosing function
         strict = any(isinstance(n, ast.If) and isinstance(n.test, ast.Compare) and isinstance(n.test.ops[0], ast.Gt) and ast.unparse(n.test.left) == dpar and isinstance(n.test.comparators[0], ast.Name)
                      and any(isinstance(a, ast.Assign) and ast.unparse(a.targets[0]) == n.test.comparators[0].id and ast.unparse(a.value) == dpar for a in n.body) for n in ast.walk(inner))
@@ -132,11 +154,11 @@ def check(run, ctx):
     N2 = run.rule("N2", "construct tables cover the documented constructs of each language, count a documented pair once, and treat else-if chains alike", floor=20,
                   decides="every documented control structure adds one level, in every language")
     tables = {}
-    cs = repo.fold(pa, pa.assigns.get("_CONTROL_STRUCTURES"))
-    cs_expr = pa.assigns.get("_CONTROL_STRUCTURES")
-    run.require(isinstance(cs_expr, ast.Tuple), "_CONTROL_STRUCTURES is not a tuple literal")
+    # the table of depth-increasing node classes: the module-level tuple the dispatcher tests with isinstance(node, <table>)
+    cs_name = next((x.args[1].id for x in ast.walk(vn.node) if isinstance(x, ast.Call) and call_name(x) == "isinstance" and len(x.args) == 2 and isinstance(x.args[1], ast.Name) and isinstance(pa.assigns.get(x.args[1].id), ast.Tuple)), "_CONTROL_STRUCTURES")
+    cs_expr = pa.assigns.get(cs_name)
+    run.require(isinstance(cs_expr, ast.Tuple), "the control-structure table is not a module-level tuple literal tested by the dispatcher")
     tables["python"] = {ast.unparse(e).replace("ast.", "") for e in cs_expr.elts}
-    vn = repo.func(f"{PKG}.python_analyzer._visit_node")
     if_special = any(isinstance(n, ast.Call) and call_name(n) == "isinstance" and ast.unparse(n.args[1]) == "ast.If" for n in ast.walk(vn.node))
     (run.ok(N2, "python If", "handled by _visit_if_node") if if_special else run.finding(N2, "python_analyzer._visit_node", "no-if", "`if` is not dispatched to the if handler", vn.loc))
     for lang, cq in (("typescript", f"{PKG}.typescript_analyzer.TypeScriptNestingAnalyzer"), ("rust", f"{PKG}.rust_analyzer.RustNestingAnalyzer")):
@@ -164,7 +186,8 @@ def check(run, ctx):
             else:
                 run.finding(N2, f"{lang} table", f"undocumented:{k}", f"{k} increases the {lang} depth but the documentation does not list it", loc)
     # else-if chains
-    has_elif = {"python": any(is_call_named(n, "_is_elif_chain") for n in ast.walk(vif.node))}
+    # an elif chain counts once: the if handler (or a helper it calls) recognises `orelse == [If]`
+    has_elif = {"python": any(isinstance(n, ast.Call) and call_name(n) == "isinstance" and len(n.args) == 2 and ast.unparse(n.args[1]) == "ast.If" for n in inline.flat_nodes(repo, vif))}
     for lang, cq in (("typescript", f"{PKG}.typescript_analyzer.TypeScriptNestingAnalyzer.calculate_max_depth"), ("rust", f"{PKG}.rust_analyzer.RustNestingAnalyzer.calculate_max_depth")):
         f = repo.func(cq)
         has_elif[lang] = any(isinstance(n, ast.Constant) and n.value in ("else_clause", "else") for n in ast.walk(f.node))
@@ -222,7 +245,7 @@ def check(run, ctx):
         depth_param = f.node.args.args[2].arg if len(f.node.args.args) > 2 else "max_depth"
         (run.ok(N3, f"{nm} message", f"interpolates {depth_param}") if depth_param in names else run.finding(N3, nm, "message", f"{nm}: the message does not state the computed depth", f.loc))
     fd = repo.func(f"{PKG}.config.NestingConfig.from_dict")
-    keys = [n.args[0].value for n in ast.walk(fd.node) if isinstance(n, ast.Call) and call_name(n) == "get" and n.args and isinstance(n.args[0], ast.Constant)]
+    keys = [repo.fold(fd.module, n.args[0], fd.cls) for n in ast.walk(fd.node) if isinstance(n, ast.Call) and call_name(n) == "get" and n.args]   # literal keys or hoisted constants
     n_key = keys.count("max_nesting_depth")
     (run.ok(N3, "NestingConfig.from_dict", f"max_nesting_depth read in {n_key} places (override, fallback, default branch)") if n_key >= 3 else run.finding(N3, "NestingConfig.from_dict", f"reads:{n_key}", "the language-override branch and the default branch do not read the same key", fd.loc))
 
@@ -241,7 +264,6 @@ def check(run, ctx):
 
     N5 = run.rule("N5", "traversal completeness: the depth walkers and function collectors descend into every child (no statement-bearing field or subtree is skipped)", floor=4,
                   decides="the deepest statement is found wherever it sits (inside match/case arms, handlers, else branches, nested blocks)")
-    vch = repo.func(f"{PKG}.python_analyzer._visit_children")
     loops = [n for n in ast.walk(vch.node) if isinstance(n, (ast.For, ast.comprehension))]
     uses_all = any(is_call_named(n.iter, "iter_child_nodes") for n in loops)
     if uses_all:
@@ -254,12 +276,11 @@ def check(run, ctx):
             run.finding(N5, "python_analyzer._visit_children", f"fields-skipped:{missing}", f"_visit_children no longer iterates all child nodes and its field list lacks {missing} (Python's statement-bearing fields are {sorted(need)}): control structures nested there are never counted", vch.loc)
         else:
             run.ok(N5, "python _visit_children", f"field list covers {sorted(need)}")
-    for fn in ("_visit_control_structure", "_visit_if_node"):
-        f = repo.func(f"{PKG}.python_analyzer.{fn}")
+    for fn, f in (("_visit_control_structure", vcs), ("_visit_if_node", vif)):
         if fn == "_visit_if_node":
             ok = contains(f.node, lambda x: isinstance(x, ast.Attribute) and x.attr == "body") and contains(f.node, lambda x: isinstance(x, ast.Attribute) and x.attr == "orelse")
         else:
-            ok = any(is_call_named(x, "_visit_children") for x in ast.walk(f.node))
+            ok = any(is_call_named(x, vch.name) for x in ast.walk(f.node))
         (run.ok(N5, f"python {fn}", "descends into the construct's blocks") if ok else run.finding(N5, f"python_analyzer.{fn}", "no-descent", f"{fn} does not descend into the construct's blocks", f.loc))
     for lang, cq in (("typescript", f"{PKG}.typescript_analyzer.TypeScriptNestingAnalyzer.calculate_max_depth"), ("rust", f"{PKG}.rust_analyzer.RustNestingAnalyzer.calculate_max_depth")):
         f = repo.func(cq)
